@@ -67,6 +67,11 @@ pub struct ReqSpec {
     /// travels over the same HTTP/1.1 connections and carries the same body
     #[serde(default)]
     pub ver10: bool,
+    /// the method is CONNECT (only where the request travels over HTTP/1.1, asks for no upgrade and is
+    /// not redirected): the request target on the wire is the authority of the URI, nothing else; no
+    /// request body; the handler refuses the tunnel with 403 and an ordinary response body
+    #[serde(default)]
+    pub connect: bool,
 }
 
 /// Deterministic extra headers for request (`dir` 0) or response (`dir` 1) number `id`.
@@ -162,6 +167,14 @@ pub fn is_upgrade(case: &NetCase, spec: &ReqSpec) -> bool {
     spec.upgrade
         && request_version(case, spec) == http::Version::HTTP_11
         && !case.reqs.iter().any(|r| (r.server as usize % n == spec.server as usize % n || redirect_target(case, r) == Some(spec.server as usize % n)) && request_version(case, r) == http::Version::HTTP_2)
+}
+
+pub fn is_connect(case: &NetCase, spec: &ReqSpec) -> bool {
+    spec.connect && request_version(case, spec) == http::Version::HTTP_11 && !spec.upgrade && redirect_target(case, spec).is_none() && {
+        // (not towards an origin that also receives HTTP/2 requests: the request could ride its HTTP/2 connection)
+        let n = case.servers.len();
+        !case.reqs.iter().any(|r| (r.server as usize % n == spec.server as usize % n || redirect_target(case, r) == Some(spec.server as usize % n)) && request_version(case, r) == http::Version::HTTP_2)
+    }
 }
 
 pub fn target_of(id: usize, target: u8) -> (String, Option<String>) {
@@ -656,6 +669,8 @@ struct SrvCtx {
     upgrades: Vec<bool>,
     /// per request: where it is redirected to (see `redirect_target`)
     redirects: Vec<Option<usize>>,
+    /// per request: sent with the CONNECT method (see `is_connect`)
+    connects: Vec<bool>,
     same_host: bool,
     tls: bool,
     /// every clone of a connection's service answers Pending from `poll_ready` this many times
@@ -730,7 +745,8 @@ async fn handle(ctx: Arc<SrvCtx>, conn: usize, req: http::Request<hyperdriver::B
     let redirect_to: Option<usize> = ctx.redirects[id];
     // second hop of a followed 303: GET without body, `hop=1` appended to the query
     let second_hop = redirect_to.is_some() && parts.uri.query().map(|q| q.ends_with("hop=1")).unwrap_or(false);
-    let want_method = if second_hop { "GET" } else { METHODS[spec.method as usize % METHODS.len()] };
+    let connect = ctx.connects[id];
+    let want_method = if second_hop { "GET" } else if connect { "CONNECT" } else { METHODS[spec.method as usize % METHODS.len()] };
     if parts.method.as_str() != want_method {
         problems.push(format!("method {} != {want_method}", parts.method));
     }
@@ -743,11 +759,19 @@ async fn handle(ctx: Arc<SrvCtx>, conn: usize, req: http::Request<hyperdriver::B
     } else {
         want_query
     };
-    if path != want_path {
-        problems.push(format!("path {path} != {want_path}"));
-    }
-    if parts.uri.query() != want_query.as_deref() {
-        problems.push(format!("query {:?} != {want_query:?}", parts.uri.query()));
+    if connect {
+        // the target of a CONNECT request is the authority the caller named - no scheme, path or query
+        let want = authority_of(ctx.tls, ctx.same_host, ctx.server);
+        if parts.uri.authority().map(|a| a.as_str()) != Some(want.as_str()) || !matches!(path.as_str(), "" | "/") && parts.uri.authority().is_none() || parts.uri.query().is_some() {
+            problems.push(format!("CONNECT target {:?} != {want}", parts.uri.to_string()));
+        }
+    } else {
+        if path != want_path {
+            problems.push(format!("path {path} != {want_path}"));
+        }
+        if parts.uri.query() != want_query.as_deref() {
+            problems.push(format!("query {:?} != {want_query:?}", parts.uri.query()));
+        }
     }
     // the request names the origin it was sent to: Host header on HTTP/1, :authority on HTTP/2
     let want_host = authority_of(ctx.tls, ctx.same_host, ctx.server);
@@ -762,7 +786,7 @@ async fn handle(ctx: Arc<SrvCtx>, conn: usize, req: http::Request<hyperdriver::B
         }
     }
     let expect_hdrs = if redirect_to.is_some() { 0 } else { spec.hdrs };
-    let expect_body_len = if second_hop { 0 } else { spec.body_len as usize };
+    let expect_body_len = if second_hop || connect { 0 } else { spec.body_len as usize };
     match parts.headers.get("x-id").and_then(|v| v.to_str().ok()).and_then(|v| v.parse::<usize>().ok()) {
         Some(h) if h == id => {}
         other => problems.push(format!("x-id header {other:?} != {id}")),
@@ -846,7 +870,7 @@ async fn handle(ctx: Arc<SrvCtx>, conn: usize, req: http::Request<hyperdriver::B
         return Ok(b.body(ChunkBody::default()).unwrap());
     }
     let data: Vec<u8> = (0..spec.resp_len as usize).map(|i| resp_byte(id, i)).collect();
-    let mut b = http::Response::builder().status(200 + (id % 3) as u16).header("x-id", id).header("x-origin", ctx.server).header("x-conn", conn);
+    let mut b = http::Response::builder().status(if connect { 403 } else { 200 + (id % 3) as u16 }).header("x-id", id).header("x-origin", ctx.server).header("x-conn", conn);
     for (n, v) in extra_headers(id, spec.hdrs, 1) {
         b = b.header(n, http::HeaderValue::from_bytes(&v).unwrap());
     }
@@ -1115,8 +1139,10 @@ fn build_request(case: &NetCase, id: usize, spec: &ReqSpec) -> http::Request<Chu
             })
             .unwrap();
     }
+    let connect = is_connect(case, spec);
+    let data = if connect { vec![] } else { data };
     http::Request::builder()
-        .method(METHODS[spec.method as usize % METHODS.len()])
+        .method(if connect { "CONNECT" } else { METHODS[spec.method as usize % METHODS.len()] })
         .version(match request_version(case, spec) {
             http::Version::HTTP_11 if spec.ver10 => http::Version::HTTP_10,
             v => v,
@@ -1132,7 +1158,7 @@ fn build_request(case: &NetCase, id: usize, spec: &ReqSpec) -> http::Request<Chu
         .header("x-keep", format!("v{id}"))
         // hyper's HTTP/1 client does not send a body of unknown length with GET (chunked encoding is
         // not used for GET/HEAD/CONNECT), so GET bodies always carry an exact size hint
-        .body(ChunkBody::new(data, spec.body_chunks as usize, spec.body_gap as u64, spec.exact_hint || spec.method as usize % METHODS.len() == 0))
+        .body(ChunkBody::new(data, spec.body_chunks as usize, spec.body_gap as u64, spec.exact_hint || connect || spec.method as usize % METHODS.len() == 0))
         .map(|mut r| {
             // a followed redirect filters credentials and rebuilds the request: no generated headers there
             for (n, v) in extra_headers(id, if redirect_target(case, spec).is_some() { 0 } else { spec.hdrs }, 0) {
@@ -1375,7 +1401,7 @@ pub fn run_net_case(case: &NetCase) -> Result<Obs, String> {
             for s in 0..nsrv {
                 let (client, incoming) = hyperdriver::stream::duplex::pair();
                 routes.push(client);
-                let ctx = Arc::new(SrvCtx { obs: obs.clone(), server: s, reqs: case.reqs.clone(), upgrades: case.reqs.iter().map(|r| is_upgrade(&case, r)).collect(), redirects: case.reqs.iter().map(|r| redirect_target(&case, r)).collect(), same_host: case.same_host, tls: case.tls, handler_not_ready: (case.transport_not_ready / 3) % 3 });
+                let ctx = Arc::new(SrvCtx { obs: obs.clone(), server: s, reqs: case.reqs.clone(), upgrades: case.reqs.iter().map(|r| is_upgrade(&case, r)).collect(), redirects: case.reqs.iter().map(|r| redirect_target(&case, r)).collect(), connects: case.reqs.iter().map(|r| is_connect(&case, r)).collect(), same_host: case.same_host, tls: case.tls, handler_not_ready: (case.transport_not_ready / 3) % 3 });
                 let shutdown = case.shutdown.filter(|(srv, _)| *srv as usize % nsrv == s).map(|(_, ms)| ms as u64);
                 let on_acc = shutdown.and(case.shutdown_on_accept).map(|k| k as usize);
                 let base = hyperdriver::Server::builder::<hyperdriver::Body>().with_incoming(incoming);
@@ -1499,7 +1525,7 @@ pub fn run_net_case(case: &NetCase) -> Result<Obs, String> {
 pub fn req_strategy(nsrv: u8, allow_cancel: bool, allow_error: bool) -> impl proptest::strategy::Strategy<Value = ReqSpec> {
     use proptest::prelude::*;
     (
-        (0..nsrv, any::<bool>(), 0u8..6, prop_oneof![2 => Just(0u8), 3 => any::<u8>()], prop_oneof![5 => Just(false), 1 => Just(true)]),
+        (0..nsrv, any::<bool>(), 0u8..6, prop_oneof![2 => Just(0u8), 3 => any::<u8>()], prop_oneof![5 => Just(false), 1 => Just(true)], prop_oneof![9 => Just(false), 1 => Just(true)]),
         prop_oneof![2 => 0u16..6, 2 => 0u16..40, 1 => 40u16..120],
         (prop_oneof![2 => Just(0u16), 2 => 1u16..300, 1 => 300u16..20000], 1u8..6, prop_oneof![3 => Just(0u8), 1 => 1u8..4], any::<bool>()),
         prop_oneof![2 => Just(0u8), 2 => 1u8..12, 1 => 12u8..40],
@@ -1508,7 +1534,7 @@ pub fn req_strategy(nsrv: u8, allow_cancel: bool, allow_error: bool) -> impl pro
         if allow_error { prop_oneof![9 => Just(false), 1 => Just(true)].boxed() } else { Just(false).boxed() },
         prop_oneof![3 => Just(0u8), 2 => Just(1u8), 1 => Just(2u8), 2 => Just(3u8)],
     )
-        .prop_map(|((server, h2, method, hdrs, ver10), start, (body_len, body_chunks, body_gap, exact_hint), handler_delay, (resp_len, resp_chunks, resp_gap), cancel, handler_error, target)| ReqSpec {
+        .prop_map(|((server, h2, method, hdrs, ver10, connect), start, (body_len, body_chunks, body_gap, exact_hint), handler_delay, (resp_len, resp_chunks, resp_gap), cancel, handler_error, target)| ReqSpec {
             server,
             h2,
             method,
@@ -1528,6 +1554,7 @@ pub fn req_strategy(nsrv: u8, allow_cancel: bool, allow_error: bool) -> impl pro
             hdrs,
             redirect: None,
             ver10,
+            connect,
         })
 }
 
